@@ -7,26 +7,39 @@ use super::{ActorHandle, JoinFuture, Spawner};
 #[derive(Copy, Clone, Debug, Default)]
 pub struct SmolSpawner;
 
+/// A smol task that is detached, not cancelled, when it is dropped, like the join handles of
+/// tokio and async-std: neither dropping the `ActorHandle` nor dropping a join future
+/// (polled or not) may take the actor down with it.
+struct DetachOnDrop<T>(Option<smol::Task<T>>);
+
+impl<T> Drop for DetachOnDrop<T> {
+    fn drop(&mut self) {
+        if let Some(task) = self.0.take() {
+            task.detach();
+        }
+    }
+}
+
 impl<A: Actor> Spawner<A> for SmolSpawner {
     fn spawn_actor<F>(future: F) -> super::ActorHandle<A>
     where
         F: Future<Output = crate::DynResult<A>> + Send + 'static,
     {
-        let handle = Arc::new(async_lock::Mutex::new(Some(smol::spawn(future))));
+        let handle = Arc::new(async_lock::Mutex::new(Some(DetachOnDrop(Some(
+            smol::spawn(future),
+        )))));
         log::trace!("spawning smol task");
-
-        let detach_handle = Arc::clone(&handle);
 
         ActorHandle::new(move || -> JoinFuture<A> {
             log::trace!("joining smol task");
             let handle = Arc::clone(&handle);
             Box::pin(async move {
-                let mut handle: Option<smol::Task<DynResult<A>>> = handle.lock().await.take();
+                let mut handle: Option<DetachOnDrop<DynResult<A>>> = handle.lock().await.take();
 
-                if let Some(handle) = handle.take() {
+                if let Some(task) = handle.as_mut().and_then(|guard| guard.0.as_mut()) {
                     // TODO: don't eat the error
 
-                    let actor = handle.await.ok();
+                    let actor = task.await.ok();
                     log::trace!("smol task completed");
                     actor
                 } else {
@@ -34,13 +47,6 @@ impl<A: Actor> Spawner<A> for SmolSpawner {
                     None
                 }
             })
-        })
-        .with_detach_fn(move || {
-            log::trace!("detaching smol task");
-            let mut handle = detach_handle.lock_blocking().take();
-            if let Some(handle) = handle.take() {
-                handle.detach();
-            }
         })
     }
 
